@@ -38,10 +38,22 @@ type ca struct {
 type pki struct {
 	cas        map[int]*ca
 	serverCert tls.Certificate         // issued by CA 1, names: localhost, c12.test, 127.0.0.1
+	nameCert   tls.Certificate         // issued by CA 1, names: localhost, c12.test only (no IP SAN)
 	clientCert map[int]tls.Certificate // client certificate issued by CA k (k = 2, 3)
 }
 
 var serverSANs = []string{"localhost", "c12.test", "127.0.0.1"}
+
+// the two names under which every origin is reached (authority = name:port): connection caches, Alt-Svc
+// bookkeeping and http3 entries are per authority, the TLS settings are the client's
+var hostNames = []string{"localhost", "127.0.0.1"}
+
+func (s srvSpec) sans() []string {
+	if s.NameOnly {
+		return serverSANs[:2]
+	}
+	return serverSANs
+}
 
 func newCA(id int) (*ca, error) {
 	key, err := ecdsa.GenerateKey(elliptic.P256(), rand.Reader)
@@ -64,7 +76,7 @@ func newCA(id int) (*ca, error) {
 	return &ca{id: id, cert: cert, key: key, pem: string(pem.EncodeToMemory(&pem.Block{Type: "CERTIFICATE", Bytes: der}))}, nil
 }
 
-func (c *ca) issue(cn string, server bool) (tls.Certificate, error) {
+func (c *ca) issue(cn string, server bool, noIP ...bool) (tls.Certificate, error) {
 	key, err := ecdsa.GenerateKey(elliptic.P256(), rand.Reader)
 	if err != nil {
 		return tls.Certificate{}, err
@@ -77,7 +89,9 @@ func (c *ca) issue(cn string, server bool) (tls.Certificate, error) {
 	if server {
 		tmpl.ExtKeyUsage = []x509.ExtKeyUsage{x509.ExtKeyUsageServerAuth}
 		tmpl.DNSNames = []string{"localhost", "c12.test"}
-		tmpl.IPAddresses = []net.IP{net.ParseIP("127.0.0.1")}
+		if len(noIP) == 0 || !noIP[0] {
+			tmpl.IPAddresses = []net.IP{net.ParseIP("127.0.0.1")}
+		}
 	} else {
 		tmpl.ExtKeyUsage = []x509.ExtKeyUsage{x509.ExtKeyUsageClientAuth}
 	}
@@ -100,6 +114,9 @@ func newPKI() (*pki, error) {
 	}
 	var err error
 	if p.serverCert, err = p.cas[1].issue("c12 origin", true); err != nil {
+		return nil, err
+	}
+	if p.nameCert, err = p.cas[1].issue("c12 origin (names only)", true, true); err != nil {
 		return nil, err
 	}
 	for _, k := range []int{2, 3} {
@@ -137,6 +154,7 @@ type srvSpec struct {
 	AltSvc   bool     `json:"altsvc"`   // TCP responses advertise h3 on that port
 	H2C      bool     `json:"h2c"`      // plain listener understands prior-knowledge h2c
 	NeedCert bool     `json:"needcert"` // client certificate from CA 3 required
+	NameOnly bool     `json:"nameonly,omitempty"` // the certificate has no IP SAN: acceptable as localhost, not as 127.0.0.1
 }
 
 type origin struct {
@@ -144,15 +162,68 @@ type origin struct {
 	port   int
 	mu     sync.Mutex
 	hellos []hello
+	clear  []string // first bytes of every connection to the TLS port that did not start with a TLS record
 	closes []func()
 }
 
-func (o *origin) url() string {
+// peekListener watches the first bytes the TLS port receives on each connection: anything but a TLS handshake
+// record (0x16) is a client writing in clear to an https origin - whatever the client makes of the answer.
+type peekListener struct {
+	net.Listener
+	o *origin
+}
+
+type peekConn struct {
+	net.Conn
+	o    *origin
+	seen bool
+}
+
+func (l peekListener) Accept() (net.Conn, error) {
+	c, err := l.Listener.Accept()
+	if err != nil {
+		return nil, err
+	}
+	return &peekConn{Conn: c, o: l.o}, nil
+}
+
+func (c *peekConn) Read(p []byte) (int, error) {
+	n, err := c.Conn.Read(p)
+	if !c.seen && n > 0 {
+		c.seen = true
+		if p[0] != 0x16 {
+			m := n
+			if m > 24 {
+				m = 24
+			}
+			c.o.mu.Lock()
+			c.o.clear = append(c.o.clear, fmt.Sprintf("%q", p[:m]))
+			c.o.mu.Unlock()
+		}
+	}
+	return n, err
+}
+
+func (o *origin) clearMark() int {
+	o.mu.Lock()
+	defer o.mu.Unlock()
+	return len(o.clear)
+}
+
+func (o *origin) clearSince(m int) []string {
+	o.mu.Lock()
+	defer o.mu.Unlock()
+	return append([]string(nil), o.clear[m:]...)
+}
+
+func (o *origin) url() string { return o.urlH(0) }
+
+func (o *origin) urlH(h int) string {
 	s := "http"
 	if o.spec.HTTPS {
 		s = "https"
 	}
-	return fmt.Sprintf("%s://localhost:%d/", s, o.port)
+	return fmt.Sprintf("%s://%s:%d/", s, hostNames[h], o.port)
 }
 
 func (o *origin) logHello(quic bool, ch *tls.ClientHelloInfo) {
@@ -226,6 +297,9 @@ func startOrigin(p *pki, spec srvSpec) (*origin, error) {
 		}
 		base := func(quic bool) *tls.Config {
 			c := &tls.Config{Certificates: []tls.Certificate{p.serverCert}}
+			if spec.NameOnly {
+				c.Certificates = []tls.Certificate{p.nameCert}
+			}
 			if spec.NeedCert {
 				c.ClientAuth = tls.RequireAndVerifyClientCert
 				c.ClientCAs = p.pool(3)
@@ -262,7 +336,7 @@ func startOrigin(p *pki, spec srvSpec) (*origin, error) {
 			} else {
 				srv.TLSNextProto = map[string]func(*http.Server, *tls.Conn, http.Handler){}
 			}
-			go srv.Serve(tls.NewListener(ln, srv.TLSConfig))
+			go srv.Serve(tls.NewListener(peekListener{ln, o}, srv.TLSConfig))
 			o.closes = append(o.closes, func() { srv.Close() })
 		} else {
 			var h http.Handler = o.handler("plain")
@@ -300,6 +374,12 @@ func allSpecs() []srvSpec {
 				}
 				out = append(out, s)
 			}
+		}
+	}
+	// origins whose certificate is valid for the DNS names only: what is acceptable as localhost is not as 127.0.0.1
+	for _, a := range alpns[1:] {
+		for _, h3 := range []string{"no", "direct"} {
+			out = append(out, srvSpec{Name: fmt.Sprintf("tls-%s-h3%s-nameonly", a.n, h3), HTTPS: true, ALPN: a.l, H3: h3 != "no", NameOnly: true})
 		}
 	}
 	// an origin that advertises h3 but has no QUIC listener (thorough tier only: QUIC dial timeouts)
